@@ -101,7 +101,7 @@ def _batch(run, prog, cls, method, original):
               f"every observation's chain must start at loss(y_i, baseline) with positional (y_true, y_pred); found "
               f"{ir.show_nl(init)[:200]}", "c0 = loss(y_i, mean prediction)")
     if c0:
-        outs0, why = meanout_arg(init[3][1])
+        outs0, why = meanout_arg(init[3][1], s.events)
         mcall = next((ev for ev, _ in walk(s.events) if isinstance(ev, ir.Call) and outs0 is not None and ev.res == outs0), None)
         good = outs0 is not None and outs0[0] == "res" and outs0[2] == f"self.{mf}" and outs0[3] == (xd,) and not outs0[4]
         once = mcall is not None and not [l for l in ctx_of[id(mcall)].loops if not l.comp]
@@ -140,7 +140,7 @@ def _batch(run, prog, cls, method, original):
     new_ok = len(nxt[3]) == 2 and nxt[3][0] == yo and not nxt[4]
     preds, why = (None, "")
     if new_ok:
-        preds, why = meanout_arg(nxt[3][1])
+        preds, why = meanout_arg(nxt[3][1], s.events)
         new_ok = preds is not None
     run.check(new_ok, "TELESCOPE", f"{method}.new", W(L.line), fq, f"loss after revealing: {why or 'ok'}",
               f"the loss after revealing must be loss(y_i, mean output of the n evaluations) with positional arguments: "
